@@ -731,6 +731,15 @@ func runFault(r *lib.Run, caseIdx int, sc script, inject []string) {
 		r.Note(fmt.Sprintf("fault run %v on %s script did not finish within the watchdog", inject, sc.Profile))
 		return
 	}
+	if os.Getenv("VERIF_C14_DEBUG") != "" && sc.Profile == "plain" {
+		var sb strings.Builder
+		for _, p := range res.progress {
+			if p.Kind == "R" && p.Status != "ok" {
+				fmt.Fprintf(&sb, "  op %d %s: %s\n", p.I, sc.Ops[max(p.I, 0)].Kind, p.Msg)
+			}
+		}
+		fmt.Printf("DEBUG plain %v:\n%s", inject, sb.String())
+	}
 	injected := 0
 	for _, e := range res.trace {
 		if e.Injected {
@@ -892,30 +901,40 @@ func runFault(r *lib.Run, caseIdx int, sc script, inject []string) {
 		if !okRet {
 			failedCalls++
 			r.Count("failed_calls:"+o.Kind, 1)
-			snap := filepath.Join(res.dir, "snaps", fmt.Sprintf("op%d", p.I))
-			if _, err := os.Stat(snap); err == nil {
-				which, pr := checkDir(snap, diskAlts(), "fault-snapshot", "")
-				r.Eval(1)
+		}
+		// directory copies: taken by the child at every failed call and after the next few
+		// successful flush / close / open calls that follow a failure
+		snap := filepath.Join(res.dir, "snaps", fmt.Sprintf("op%d", p.I))
+		if _, err := os.Stat(snap); err == nil {
+			alts := diskAlts()
+			which, pr := checkDir(snap, alts, "fault-snapshot", "")
+			r.Eval(1)
+			if okRet {
+				r.Count("fault_follow_up_snapshots_checked(after a successful call following a failure)", 1)
+			} else {
 				r.Count("fault_snapshots_checked", 1)
-				if which >= 0 && states[which].has {
-					r.Count("fault_snapshots_showing_unacknowledged_whole_batch(repair failed)", 1)
-				}
-				if pr != nil {
-					im, _ := readImage(walDirOf(snap))
-					pr.Files = im.describe()
-					report("", call, p.Msg, pr)
-					return
-				}
-				// the copy shows what is on disk right now: keep the states that agree
-				observed := disk(states[which]).view()
-				var keep []*fstate
-				for _, s := range states {
-					if equalViews(disk(s).view(), observed) {
-						keep = append(keep, s)
-					}
-				}
-				states = keep
 			}
+			if which >= 0 && states[which].has {
+				r.Count("fault_snapshots_showing_unacknowledged_whole_batch(repair failed)", 1)
+			}
+			if pr != nil {
+				im, _ := readImage(walDirOf(snap))
+				pr.Files = im.describe()
+				if okRet {
+					pr.Class = strings.Replace(pr.Class, "fault-snapshot:", "fault-follow-up-snapshot:", 1)
+				}
+				report("", call, p.Msg, pr)
+				return
+			}
+			// the copy shows what is on disk right now: keep the states that agree
+			observed := disk(states[which]).view()
+			var keep []*fstate
+			for _, s := range states {
+				if equalViews(disk(s).view(), observed) {
+					keep = append(keep, s)
+				}
+			}
+			states = keep
 		}
 	}
 	if !res.ended {
@@ -962,6 +981,28 @@ func straceScripts(r *lib.Run) []script {
 		default:
 			out = append(out, genBig(rng))
 		}
+	}
+	// plain scripts: a few live heights, a flush after every one or two entries, no prune, a
+	// reopen near the end - everything written stays live, so whatever a failed flush and its
+	// retry do to earlier batches of the same log file is visible
+	for i := 0; i < r.N(2, 8); i++ {
+		rng := lib.Rng("C14/strace-plain", uint64(i))
+		g := &gen{rng: rng}
+		base := uint64(10 + rng.IntN(1000))
+		for k := 0; k < 14+rng.IntN(10); k++ {
+			g.entryKind(base+uint64(rng.IntN(3)), pick(rng, eStart, eProp, ePrevote, ePrecomm, eTimeout), int64(rng.IntN(3)))
+			if rng.IntN(3) > 0 {
+				g.add(opFlush)
+			}
+			if k == 9 && rng.IntN(3) == 0 {
+				g.reopen()
+			}
+		}
+		g.add(opFlush)
+		g.reopen()
+		g.entryKind(base+3, eStart, 0)
+		g.add(opClose)
+		out = append(out, script{Profile: "plain", Ops: g.ops})
 	}
 	return out
 }
@@ -1052,7 +1093,14 @@ func straceLayer(r *lib.Run, t *testing.T) {
 			{"renameat:error=EIO:when=1"},
 			{"unlinkat:error=EACCES:when=1"},
 		}
-		if r.Quick() {
+		if scripts[i].Profile == "plain" {
+			// one-shot failures at early, spread positions (a retry follows each of them)
+			specs = nil
+			for k := 0; k < 4; k++ {
+				specs = append(specs, []string{fmt.Sprintf("write:error=ENOSPC:when=%d", 2+k*2+rng.IntN(2))},
+					[]string{fmt.Sprintf("fdatasync:error=EIO:when=%d", 2+k*2+rng.IntN(2))})
+			}
+		} else if r.Quick() {
 			// the watermark / cleanup path (openat + renameat of the watermark, unlinkat of obsolete
 			// files) only exists in scripts with more than 256 prunes: there its three faults are
 			// always injected; the rest is a seeded sample
